@@ -231,6 +231,198 @@ def equality_exit(F, f, cfg, du, calls, body, u, v):
     return "leaves the loop when this round's %s equals what the round was computed with" % ("evaluation" if whole else "fee")
 
 
+def _state_field(f, du, op, depth=0):
+    """walk back through copies, borrows and derefs from `op`: the first field projection of a type of tx3_resolver that holds a
+    CompiledTx (`rounds.best`): (adt, field) - loop-carried state kept in a struct - else None"""
+    pl = mir.op_place(op) if "l" not in op else op
+    seen = set()
+    while pl is not None and depth < 12:
+        depth += 1
+        for q in pl["p"]:
+            if q[0] == "f" and len(q) > 4 and str(q[2]).startswith("tx3_resolver") and CT in str(q[4]):
+                return (str(q[2]), str(q[1]))
+        if pl["l"] in seen:
+            return None
+        seen.add(pl["l"])
+        ds = du.defs.get(pl["l"], [])
+        if len(ds) != 1:
+            return None
+        d = ds[0]
+        if d[0] == "stmt" and d[3]["rv"]["k"] in ("use", "cast"):
+            pl = mir.op_place(d[3]["rv"]["op"])
+        elif d[0] == "stmt" and d[3]["rv"]["k"] in ("ref", "rawptr"):
+            pl = d[3]["rv"]["pl"]
+        elif d[0] == "call" and mir.is_transparent(d[3], ("std::option::Option::<T>::as_ref", "std::ops::Deref::deref")) and d[3]["args"]:
+            pl = mir.op_place(d[3]["args"][0])
+        else:
+            return None
+    return None
+
+
+def equality_exit_state(F, f, cfg, du, calls, body, u, v):
+    """like equality_exit, for a loop whose previous evaluation lives in a field of a state struct (`rounds.best`): the edge
+    u -> v is taken exactly when `candidate != *prev` is false for the `prev` read out of that field; a constant verdict on the
+    way (`None => true`) never takes the edge; the pass function is fed the fee of that field's value; and inside the loop the
+    field is only ever assigned `Some(<this round's evaluation>)`."""
+    t = f["blocks"][u]["t"]
+    if t["k"] != "switch":
+        return None
+    pl = mir.op_place(t["discr"])
+    if pl is None or pl["p"]:
+        return None
+    l, negated = pl["l"], False
+    for _ in range(8):
+        ds = du.defs.get(l, [])
+        if len(ds) == 1 and ds[0][0] == "stmt" and ds[0][3]["rv"]["k"] == "use":
+            p2 = mir.op_place(ds[0][3]["rv"]["op"])
+            if p2 is not None and not p2["p"]:
+                l = p2["l"]
+                continue
+        if len(ds) == 1 and ds[0][0] == "stmt" and ds[0][3]["rv"]["k"] == "unop" and ds[0][3]["rv"].get("op") == "Not":
+            p2 = mir.op_place(ds[0][3]["rv"]["a"])
+            if p2 is not None and not p2["p"]:
+                l = p2["l"]
+                negated = not negated
+                continue
+        break
+    cmpd, consts = None, []
+    for d in du.defs.get(l, []):
+        if d[0] == "call" and (d[3].get("callee") or "") in ("std::cmp::PartialEq::eq", "std::cmp::PartialEq::ne") and len(d[3]["args"]) == 2 \
+                and "CompiledTx" in (d[3].get("resolved") or "") + " ".join(d[3].get("gargs") or []):
+            if cmpd is not None:
+                return None
+            cmpd = d[3]
+        elif d[0] == "stmt" and d[3]["rv"]["k"] == "use" and (mir.op_const(d[3]["rv"]["op"]) or {}).get("ty") == "bool":
+            consts.append(bool(mir.op_const(d[3]["rv"]["op"]).get("int")))
+        else:
+            return None
+    if cmpd is None:
+        return None
+    tm = dict((a, b2) for a, b2 in t["targets"])
+    false_t = tm.get(0, t["otherwise"])
+    true_t = t["otherwise"] if 0 in tm else tm.get(1, t["otherwise"])
+
+    def takes_v(r):
+        b = (not r) if negated else r
+        return v == (true_t if b else false_t)
+    equal_r = cmpd["callee"].endswith("::eq")      # value of the raw bool when the two are equal
+    if not takes_v(equal_r) or takes_v(not equal_r) or any(takes_v(c) for c in consts):
+        return None
+    strict = _Strict(du)
+    new_side = state = None
+    for sd in cmpd["args"]:
+        org = mir.provenance(f, strict, sd, transparent_extra=AWAIT)
+        if org and all(_pass_result(F, f, o, body) for o in org):
+            new_side = sd
+        else:
+            st_ = _state_field(f, du, sd)
+            if st_:
+                state = st_
+    if new_side is None or state is None:
+        return None
+    adt, fld = state
+    # every write of the field inside the loop stores Some(<this round's evaluation>)
+    for bi, si, st in mir.stmts(f):
+        if not any(q[0] == "f" and str(q[2]) == adt and str(q[1]) == fld for q in st["lhs"]["p"]):
+            continue
+        if bi not in body:
+            continue
+        rv = st["rv"]
+        src = None
+        if rv["k"] == "agg" and rv.get("variant") == "Some" and rv["ops"]:
+            src = rv["ops"][0]
+        elif rv["k"] == "use":
+            for o in mir.provenance(f, strict, rv["op"]):
+                if o.kind == "agg" and o.rv.get("variant") == "Some" and o.rv["ops"]:
+                    src = o.rv["ops"][0]
+        if src is None:
+            return None
+        org = mir.provenance(f, strict, src, transparent_extra=AWAIT)
+        if not (org and all(_pass_result(F, f, o, body) for o in org)):
+            return None
+    # the pass function is fed the fee of the field's value
+    fed = False
+    for cb, ct in calls:
+        if cb not in body:
+            continue
+        for a in ct["args"]:
+            apl = mir.op_place(a)
+            if apl is None or f["locals"][apl["l"]] != "u64":
+                continue
+            for o in mir.provenance(f, du, a):
+                if o.kind == "call" and o.callee in ("std::option::Option::<T>::map_or", "std::option::Option::<T>::map", "std::option::Option::<T>::unwrap_or", "std::option::Option::<T>::map_or_else") and o.term["args"]:
+                    reads_fee = any(any(q[0] == "f" and q[1] == "fee" and str(q[2]) == CT for q in (mir.op_place(x) or {"p": []})["p"])
+                                    for c in o.term.get("fnrefs") or () if c in F.fns for _, _, s2 in mir.stmts(F.fns[c]) for x in mir.all_operands_of_rv(s2["rv"]))
+                    if _state_field(f, du, o.term["args"][0]) == state and reads_fee:
+                        fed = True
+                elif ".fee" in o.proj and _state_field(f, du, a) == state:
+                    fed = True
+    if not fed:
+        return None
+    return "leaves the loop when this round's evaluation equals the previous one kept in %s.%s, whose fee the round was computed with" % (adt.split("::")[-1], fld)
+
+
+def _verdict_sites(F, f, du, cfg, u, v):
+    """the exit u -> v tests a *verdict variable*: a local that is only ever assigned constants (variants of a field-less enum,
+    bool literals), decided elsewhere (`match rounds.record(candidate) { Stop => break, .. }`).  Returns the blocks of the
+    assignments whose value takes the edge to v (each with the branch that controls it: (switch block, successor)), or None."""
+    t = f["blocks"][u]["t"]
+    if t["k"] != "switch":
+        return None
+    pl = mir.op_place(t["discr"])
+    if pl is None or pl["p"]:
+        return None
+    x, enum = pl["l"], None
+    for st in f["blocks"][u]["s"]:
+        if st["lhs"]["l"] == pl["l"] and st["rv"]["k"] == "discr":
+            x, enum = st["rv"]["pl"]["l"], st["rv"].get("adt")
+    for _ in range(8):
+        ds = du.defs.get(x, [])
+        if len(ds) == 1 and ds[0][0] == "stmt" and ds[0][3]["rv"]["k"] == "use":
+            p2 = mir.op_place(ds[0][3]["rv"]["op"])
+            if p2 is not None and not p2["p"]:
+                x = p2["l"]
+                continue
+        break
+    ds = du.defs.get(x, [])
+    if len(ds) < 2:
+        return None
+    tm = dict((a, b2) for a, b2 in t["targets"])
+    vals = []
+    for d in ds:
+        if d[0] != "stmt":
+            return None
+        rv = d[3]["rv"]
+        if enum and rv["k"] == "agg" and rv.get("adt") == enum and not rv.get("ops"):
+            adt = F.adts.get(enum)
+            idx = {vv["name"]: vv["discr"] for vv in adt["variants"]}.get(rv.get("variant")) if adt else None
+            if idx is None:
+                return None
+            vals.append((d[1], idx))
+        elif not enum and rv["k"] == "use" and (mir.op_const(rv["op"]) or {}).get("ty") == "bool":
+            vals.append((d[1], int(bool(mir.op_const(rv["op"]).get("int")))))
+        else:
+            return None
+    out = []
+    for bd, val in vals:
+        if tm.get(val, t["otherwise"]) != v:
+            continue
+        cur, ctrl = bd, None
+        for _ in range(12):
+            preds = [p_ for p_ in cfg.pred[cur] if not f["blocks"][p_]["cleanup"]]
+            if len(preds) != 1:
+                break
+            p_ = preds[0]
+            if f["blocks"][p_]["t"]["k"] == "switch" and len({s_ for s_ in cfg.succ[p_] if not (f["blocks"][s_]["t"]["k"] == "unreachable" and not f["blocks"][s_]["s"])}) > 1:
+                ctrl = (p_, cur)
+                break
+            cur = p_
+        if ctrl is None:
+            return None
+        out.append((bd, ctrl))
+    return out or None
+
+
 def eval_pass_first_round_is_some(F):
     """in eval_pass, `Ok(None)` (= "nothing better, converged") is returned only when a previous evaluation was
     supplied: dominated by the Some edge of the match on the `last_eval` parameter.  Returns (bool, reason, fn)"""
@@ -360,7 +552,9 @@ def resolve_loop_facts(F):
 def resolve_unwrap_discharge(F, site):
     """D-FIRSTROUND for `last_eval.unwrap()` in resolve_tx"""
     f, cfg, du, le, calls = resolve_loop_facts(F)
-    if site.fn["path"] != f["path"] or le is None:
+    if le is None:
+        return _state_unwrap_discharge(F, site, f, cfg, du, calls)
+    if site.fn["path"] != f["path"]:
         return None
     t = site.term
     orig = mir.provenance(f, du, t["args"][0])
@@ -416,6 +610,57 @@ def resolve_unwrap_discharge(F, site):
     return "D-FIRSTROUND: last_eval starts as None, eval_pass(.., None) always yields Some (%s), so the loop body assigns Some before any exit" % reason
 
 
+def _state_unwrap_discharge(F, site, f, cfg, du, calls):
+    """D-FIRSTROUND for a loop that keeps the best evaluation in a field of a state struct (`rounds.best.unwrap()` after the
+    loop, possibly inside a small method such as `into_best(self)`): every way out of the loop towards Ok(..) either is the
+    confirmed exit - which compares with the `Some` payload of that field - or is dominated by a write `field = Some(..)`."""
+    t = site.term
+    if not t or t.get("k") != "call" or not t.get("args") or not (t.get("callee") or "").endswith("::unwrap"):
+        return None
+    state = _state_field(site.fn, mir.DefUse(site.fn), t["args"][0])
+    if state is None:
+        return None
+    adt, fld = state
+    # the unwrap is used by the loop function only, after the loop
+    if site.fn["path"] != f["path"]:
+        from .common import callers_index
+        cs = callers_index(F).get(site.fn["path"], [])
+        if not cs or any((g.get("owner") or g["path"]) not in (f["path"], f.get("owner"), LOOP_FN, LOOP_FN + "::{closure#0}") for g, _ in cs):
+            return None
+    loops = cfg.loops()
+    body = None
+    for call_bb, _ in calls:
+        for h, blks in loops.items():
+            if call_bb in blks and (body is None or len(blks) > len(body)):
+                body = blks
+    if body is None:
+        return None
+    writes = [bi for bi, si, st in mir.stmts(f) if bi in body and any(q[0] == "f" and str(q[2]) == adt and str(q[1]) == fld for q in st["lhs"]["p"])
+              and (st["rv"]["k"] == "agg" and st["rv"].get("variant") == "Some" or st["rv"]["k"] == "use")]
+    if not writes:
+        return None
+    ok_returns = {bi for bi, si, st in mir.stmts(f) if st["lhs"]["l"] == 0 and not st["lhs"]["p"] and st["rv"]["k"] == "agg" and st["rv"].get("variant") == "Ok"}
+    n = 0
+    for u in sorted(body):
+        for v in cfg.succ[u]:
+            if v in body or f["blocks"][v]["cleanup"]:
+                continue
+            if not (ok_returns & cfg.reach_from(v)) and v not in ok_returns:
+                continue
+            vs = _verdict_sites(F, f, du, cfg, u, v)
+            sites_ = [(bd, pu, pv) for bd, (pu, pv) in vs] if vs else [(u, u, v)]
+            for bd, pu, pv in sites_:
+                n += 1
+                if equality_exit_state(F, f, cfg, du, calls, body, pu, pv):
+                    continue
+                if any(cfg.dominates(wb, bd) for wb in writes):
+                    continue
+                return None
+    if n == 0:
+        return None
+    return "D-FIRSTROUND: %s.%s is Some on every way out of the round loop (%d exits: the confirmed one compares with its Some payload, the others are dominated by `%s = Some(<this round's evaluation>)`)" % (adt.split("::")[-1], fld, n, fld)
+
+
 def resolve_loop_exits(F):
     """S-CONVERGE: classify the exits of resolve_tx's evaluation loop.
     Returns list of (kind, line, detail) with kind in {"converged", "error", "unconverged"}"""
@@ -455,9 +700,21 @@ def resolve_loop_exits(F):
                     orig = mir.provenance(f, du, {"l": dl, "p": []}) if dl is not None else []
                     if any(o.kind == "call" and o.callee.startswith(resolver_roles(F)[1]) for o in orig):
                         conv = True
-            eq = None if conv else equality_exit(F, f, cfg, du, calls, body, u, v)
+            eq = None if conv else (equality_exit(F, f, cfg, du, calls, body, u, v) or equality_exit_state(F, f, cfg, du, calls, body, u, v))
             if eq:
                 out.append(("converged", line, eq))
+                continue
+            vs = None if conv else _verdict_sites(F, f, du, cfg, u, v)
+            if vs:
+                # the exit tests a verdict decided elsewhere: each place that decides "stop" is an exit of its own
+                for bd, (pu, pv) in vs:
+                    pline = f["blocks"][pu]["t"].get("line")
+                    eq2 = equality_exit(F, f, cfg, du, calls, body, pu, pv) or equality_exit_state(F, f, cfg, du, calls, body, pu, pv)
+                    if eq2:
+                        out.append(("converged", pline, eq2))
+                    else:
+                        how2 = _exit_condition(f, du, pu)
+                        out.append(("unconverged: " + how2, pline, "leaves the loop towards `Ok(..)` (%s) without eval_pass having reported convergence" % how2))
                 continue
             how = _exit_condition(f, du, u)
             out.append(("converged" if conv else "unconverged: " + how, line,
